@@ -101,11 +101,11 @@ macro_rules! return_if_some {
     };
 }
 
-pub const N_SINGLE: usize = 16;
+pub const N_SINGLE: usize = 17;
 /// single-trait families the plugin module can also make (C05)
 pub const N_PLUGIN_SINGLE: usize = 7;
 /// containers available per single-trait family
-pub const SINGLE_NCONT: [usize; N_SINGLE] = [2, 4, 2, 2, 1, 2, 1, 1, 1, 1, 4, 2, 2, 1, 1, 1];
+pub const SINGLE_NCONT: [usize; N_SINGLE] = [2, 4, 2, 2, 1, 2, 1, 1, 1, 1, 4, 2, 2, 1, 1, 1, 2];
 
 fn wrapc(o: Option<Box<dyn DynObj>>, cx: &Cx, cont: usize) -> Option<Created> {
     o.map(|obj| Created { obj, ctxsel: cx.ctxsel, borrowed: cont == 1 || cont == 2 })
@@ -117,7 +117,7 @@ pub fn create_single(family: usize, cont: usize, cx: &Cx) -> Option<Created> {
         let core = Core::new(cx.world, TWIN, cx.seed, false);
         let imp = Solo::new(core);
         // (families 14/15: forwarding objects over a reference, see below)
-        let borrowed = cont == 1 || cont == 2 || family >= 14;
+        let borrowed = cont == 1 || cont == 2 || family == 14 || family == 15;
         macro_rules! tw {
             ($k:ident) => {
                 if borrowed { Box::new(W::<Solo, $k>::borrowed(imp, cx.twin_arena)) as Box<dyn DynObj> } else { Box::new(W::<Solo, $k>::new(imp)) as Box<dyn DynObj> }
@@ -140,6 +140,7 @@ pub fn create_single(family: usize, cont: usize, cx: &Cx) -> Option<Created> {
             13 => tw!(KDup),
             14 => tw!(KKVStore),
             15 => tw!(KIOPort),
+            16 => tw!(KLend),
             _ => return None,
         };
         return Some(Created { obj, ctxsel: cx.ctxsel, borrowed });
@@ -188,6 +189,7 @@ pub fn create_single(family: usize, cont: usize, cx: &Cx) -> Option<Created> {
             mk_any!(@ctx trait_obj, IOPort, W, KIOPort, inst, cx, out);
             out.map(|obj| Created { obj, ctxsel: cx.ctxsel, borrowed: true })
         }
+        16 => er!(Lend, KLend, [0, 1]),
         _ => None,
     }
 }
